@@ -537,17 +537,23 @@ pub fn run() {
                     };
                     let mc = sc.mc.as_mut().unwrap();
                     let bfs = ws.get(1) == Some(&"bfs");
+                    // without callback operations the plain entry points are used (`run`, `run_from_states`)
+                    let plain = sc.cbs.is_empty();
                     let res = if ws[0] == "runfrom" {
                         let states = sc.collected.clone();
-                        if bfs {
-                            mc.run_from_states_with_change::<Bfs>(config, states, cb)
-                        } else {
-                            mc.run_from_states_with_change::<Dfs>(config, states, cb)
+                        match (bfs, plain) {
+                            (true, true) => mc.run_from_states::<Bfs>(config, states),
+                            (false, true) => mc.run_from_states::<Dfs>(config, states),
+                            (true, false) => mc.run_from_states_with_change::<Bfs>(config, states, cb),
+                            (false, false) => mc.run_from_states_with_change::<Dfs>(config, states, cb),
                         }
-                    } else if bfs {
-                        mc.run_with_change::<Bfs>(config, cb)
                     } else {
-                        mc.run_with_change::<Dfs>(config, cb)
+                        match (bfs, plain) {
+                            (true, true) => mc.run::<Bfs>(config),
+                            (false, true) => mc.run::<Dfs>(config),
+                            (true, false) => mc.run_with_change::<Bfs>(config, cb),
+                            (false, false) => mc.run_with_change::<Dfs>(config, cb),
+                        }
                     };
                     summarize(res, &rec)
                 }));
